@@ -88,6 +88,7 @@ def run(rep, pdb, tier):
                         okj, fn["body"], note + "; jacobian evaluates func %d + %d*n times" % (len(outl), len(inl)))
                 for k_, r_ in (("ok-tested", "the only Ok(..) is inside the loop, control-dependent on the stopping test, and carries the iterate"),
                                ("failure-carries-iterate", "the fall-through value is Err(current), current being the variable updated by `current -= dx` and initialised from self.guess"),
+                               ("criterion", "success is decided on the size of the Newton step applied in this iteration"),
                                ("step", "dx solves J*dx = f(current) by solve_basic with the Jacobian evaluated at current (finite-difference with self.delta, or the supplied one); the update subtracts dx")):
                     rep.add("%s/%s" % (k_, short), r_, True, fn["body"], note, where=where)
                 continue
